@@ -159,10 +159,17 @@ func C08(cfg Cfg) int {
 					var sigs [][]byte
 					roots := make([][32]byte, n)
 					descs := make([]string, n)
+					markers := map[int]bool{}
 					if endpoint == "atts" {
 						cs := make([]*AttCase, n)
 						for i := range cs {
 							cs[i] = wfAtt(r, env, i)
+							if n > 1 && r.Intn(9) == 0 {
+								// A marker: an attestation no rule can approve (target below source).  Its position must carry
+								// its own (negative) verdict; a SUCCEEDED there belongs to some other request.
+								cs[i].Data.Source.Epoch, cs[i].Data.Target.Epoch = cs[i].Data.Target.Epoch+1, cs[i].Data.Source.Epoch
+								markers[i] = true
+							}
 							roots[i] = cs[i].SigningRoot()
 							descs[i] = descAtt(cs[i])
 						}
@@ -183,6 +190,13 @@ func C08(cfg Cfg) int {
 					}
 					okc := 0
 					for i := range res {
+						if markers[i] {
+							run.Count("marker_entries", 1)
+							if res[i] == core.ResultSucceeded || len(sigs[i]) > 0 {
+								run.Violate(fmt.Sprintf("%s: entry %d is an attestation with target below source, yet it came back SUCCEEDED: the verdict at this position belongs to another request (%s)", cell, i, descs[i]), cell)
+							}
+							continue
+						}
 						if res[i] != core.ResultSucceeded {
 							run.Count("not_signed_wellformed", 1)
 							continue
@@ -197,7 +211,7 @@ func C08(cfg Cfg) int {
 					if okc > 0 {
 						run.Distinct(cell)
 					}
-					if okc != n {
+					if okc != n-len(markers) {
 						// C08 does not require signing (C09 does) but a wholly refused well-formed batch leaves nothing to verify.
 						run.Count("batches_with_refusals", 1)
 					}
